@@ -101,8 +101,8 @@ def run(rep, tier, seed):
     rng = random.Random(seed + 16)
     events, recipes = [], {}
     k = 1 if tier == "quick" else 30
-    cond_specs(rep, rng, 1500 * k, events, recipes)
-    c10.make_events(rep, rng, 2000 * k, events, recipes, with_dsl=False)
+    cond_specs(rep, rng, 3000 * k, events, recipes)
+    c10.make_events(rep, rng, 3000 * k, events, recipes, with_dsl=False)
     gd.judge(rep, events, recipes, "C16")
     for e in events[:: max(1, len(events) // 2)][:2]:
         rep.sample({"src": recipes[e["id"]], "outcome": e["outcome"], "outcome2": e["outcome2"], "eq12": e["eq12"]})
